@@ -210,6 +210,15 @@ def check_case(case, acc):
             stats["aborted_parent"] += 1
         elif step.exc is not None and op[0] != "parent":
             stats["failed_children"] += 1
+            if isinstance(step.exc, mut.Veto) and step.raised:
+                # the per-child detach inside a children call is a parent assignment (child.parent = None): an exception
+                # from its _post_detach propagates without undoing the detach that preceded it
+                first = min(step.raised)
+                kind, child, arg = step.log[first - 1]
+                if kind == "post_detach" and arg == op[1] and not any(e[0] == "pre_attach_children" for e in step.log[:first]):
+                    if step.post[child][0] is not None or child in step.post[arg][1]:
+                        raise Violation("post-hook-exception", "%s: _post_detach(%s, %s) raised while the former children were being detached, yet after the call node %s is a child of %s again: %s (log %s)" % (ctx, child, arg, child, step.post[child][0], step.post, step.log))
+                    stats["posthook_children"] = stats.get("posthook_children", 0) + 1
         if isinstance(step.exc, mut.Veto) and not step.raised:
             raise Violation("veto-origin", "Veto propagated although no hook raised in this call")
         wrappers = sum(1 for e in step.log if e[0] in ("pre_detach_children", "pre_attach_children") and len(e[2]) >= 2)
@@ -224,6 +233,7 @@ def check_case(case, acc):
     acc.tag("parent_assignments_aborted_by_post_hook", stats["posthook"])
     acc.tag("failed_children_calls_bracket_checked", stats["failed_children"])
     acc.tag("calls_with_a_tree_editing_hook", stats.get("evicting", 0))
+    acc.tag("children_calls_aborted_by_post_detach_while_detaching", stats.get("posthook_children", 0))
 
 
 def plan(tier, seed):
